@@ -83,4 +83,67 @@ func c02cli(c *h.Ctx) {
 		c.Count("cli_failure_kinds_x_allow_failure", 1)
 		c.Nontrivial(fmt.Sprint("cli", k))
 	})
+	// dependencies listed although other listed dependencies imply them: `a` fails, `b` (condition false) depends on
+	// a, `c` depends on a AND b (and variants). A skipped stage blocks nothing, but c depends on the failed a itself.
+	shapes := []struct {
+		name string
+		deps map[string][]string
+	}{
+		{"redundant-direct", map[string][]string{"b": {"a"}, "c": {"a", "b"}}},
+		{"redundant-direct-reversed", map[string][]string{"b": {"a"}, "c": {"b", "a"}}},
+		{"two-hops", map[string][]string{"b": {"a"}, "m": {"b"}, "c": {"m", "a"}}},
+		{"only-through-skipped", map[string][]string{"b": {"a"}, "c": {"b"}}},
+	}
+	h.Par(len(shapes), 4, func(i int) {
+		sh := shapes[i]
+		d := fmt.Sprintf("%s/r%d", dir, i)
+		os.MkdirAll(d, 0o755)
+		trace := d + "/trace"
+		tok := func(s string) string { return fmt.Sprintf("printf '%s\\n' >> '%s'", s, trace) }
+		tasks := gen.OM{{K: "a", V: gen.OM{{K: "command", V: []interface{}{tok("a") + "; exit 3"}}}}}
+		stages := []interface{}{gen.OM{{K: "task", V: "a"}}}
+		for _, n := range []string{"b", "m", "c"} {
+			deps, ok := sh.deps[n]
+			if !ok {
+				continue
+			}
+			tasks.Set(n, gen.OM{{K: "command", V: []interface{}{tok(n)}}})
+			st := gen.OM{{K: "task", V: n}}
+			var dl []interface{}
+			for _, x := range deps {
+				dl = append(dl, x)
+			}
+			st.Set("depends_on", dl)
+			if n == "b" {
+				st.Set("condition", "/bin/false")
+			}
+			stages = append(stages, st)
+		}
+		cfg := gen.OM{{K: "tasks", V: tasks}, {K: "pipelines", V: gen.OM{{K: "p", V: stages}}}}
+		h.WriteFile(d+"/tasks.yaml", gen.YAML(cfg))
+		res := tc{Dir: d, Timeout: 60 * time.Second}.run(c, "-o", "raw", "p")
+		c.Eval(1)
+		got := strings.Fields(h.ReadFile(trace))
+		cas := map[string]interface{}{"yaml": gen.YAML(cfg), "ran": got, "exit": res.Exit, "stderr": tail(stripANSI(string(res.Stderr)), 400)}
+		if crashed, how := res.CrashedNotByStatus(); crashed {
+			c.Violate("cli-crash/"+h.TopFrame(string(res.Stderr)), "taskctl died: "+how, cas)
+			return
+		}
+		cRan := false
+		for _, g := range got {
+			if g == "c" {
+				cRan = true
+			}
+		}
+		// c may run only where its one path to the failed stage leads through the skipped stage ("only-through-skipped"
+		// is the don't-care of DESIGN §4 C02: Skipped or Canceled are both acceptable there)
+		if cRan && sh.name != "only-through-skipped" {
+			c.Violate("cli/ran-behind-failed-dependency", fmt.Sprintf("%s: stage c lists the failed stage a among its dependencies and ran all the same (ran: %v)", sh.name, got), cas)
+		}
+		if res.Exit == 0 {
+			c.Violate("cli/error-flag-differs", fmt.Sprintf("%s: stage a failed without allow_failure, exit status 0", sh.name), cas)
+		}
+		c.Count("cli_redundant_dependency_shapes", 1)
+		c.Nontrivial("cli-redundant" + sh.name)
+	})
 }
